@@ -335,3 +335,7 @@ M("order-volfrac-index", KE, "            Y.volFrac[0,p] = np.amin([volRatio * p
   ["C11:phase_order"], ["phase_order_changes_history"], "volume fraction of the phase listed at position p scaled by 1+1e-6 p")
 M("order-multi-vm0", KE, "        chemDG = (dGs[p] + strainEnergy) * precParams.volume.Vm\n", "        chemDG = (dGs[p] + strainEnergy) * self.precipitateParameters[0].volume.Vm\n",
   ["C11:phase_order"], ["phase_order_changes_history", "phase_order_changes_time_grid"], "multicomponent growth converts the driving force with the molar volume of the first listed phase")
+M("gg-number-gain", GG, "        self.pbm.UpdatePBMEuler(time, x[0])\n        self.pbm.adjustSizeClassesEuler(True)", "        self.pbm.UpdatePBMEuler(time, x[0])\n        self.pbm.PSD[self.pbm.PSD > 0] *= 1 + 1e-6\n        self.pbm.adjustSizeClassesEuler(True)",
+  ["C18:graingrowth"], ["mean_grain_size_decreases"], "every populated class gains 1e-6 of its grains per step before the renormalisation (number of grains rises, mean size falls)")
+M("gg-rcr-mean", GG, "        return self.pbm.SecondMomentFromN(x) / self.pbm.FirstMomentFromN(x)", "        return self.pbm.FirstMomentFromN(x) / self.pbm.ZeroMomentFromN(x)",
+  ["C18:graingrowth"], ["growth_law_not_volume_conserving", "mean_grain_size_decreases"], "critical radius taken as the number-mean radius (the growth law no longer conserves volume)")
